@@ -2,6 +2,7 @@ package server
 
 import (
 	"context"
+	"fmt"
 	"time"
 
 	"github.com/hashicorp/raft"
@@ -210,6 +211,117 @@ func VerifC07Failover() {
 			quorum := (len(isr) - 1) / 2
 			vAssert(len(witnesses) > quorum, "an election needs reports from more than half of the in-sync followers within one window")
 			witnesses = map[string]bool{}
+		}
+	}
+	vCover("done")
+}
+
+// VerifC07Concurrent: the decisive leader report (the one that completes the
+// quorum and triggers the election) races an ISR shrink or expansion sent by
+// the leader being reported, under the exploring scheduler. Whatever the
+// interleaving and whichever of the two reaches the Raft log first: the leader
+// is in the in-sync set, the in-sync set is a subset of the replicas, a request
+// that names the deposed leader and is sequenced after the election is refused
+// or has no effect, epochs only grow, and a new leader was in the in-sync set
+// when its election was applied.
+func VerifC07Concurrent() {
+	vInstallSequencer()
+	dir := vTempDir()
+	s := vMkFSMServer(dir)
+	vController = s
+	s.getRaft().leader = 1
+	s.config.Clustering.ReplicaMaxLeaderTimeout = 10 * time.Second
+	s.config.Clustering.ReplicaMaxLagTime = time.Hour
+	s.config.Clustering.ReplicaMaxIdleWait = time.Hour
+	s.config.Clustering.ReplicaFetchTimeout = time.Hour
+	vRaftIndex = 0
+	reps := []string{"r1", "r2", "r3"}
+	isr0 := reps
+	expand := vChoose(2) == 1
+	if expand {
+		isr0 = []string{"r1", "r2"} // r3 is out of sync and may be added back
+	}
+	_, err := s.getRaft().applyOperation(context.Background(), &proto.RaftLog{Op: proto.Op_CREATE_STREAM, CreateStreamOp: &proto.CreateStreamOp{Stream: &proto.Stream{
+		Name: "a", Subject: "a", Partitions: []*proto.Partition{{Stream: "a", Subject: "a", Id: 0, ReplicationFactor: 3,
+			Replicas: reps, Isr: isr0, Leader: "r1"}}}}}, nil)
+	vAssert(err == nil, "stream created")
+	p := s.metadata.GetPartition("a", 0)
+	_, lepoch := p.GetLeader()
+	epoch0 := p.GetEpoch()
+	if !expand {
+		// with two in-sync followers the first report is not yet a quorum
+		st := s.metadata.ReportLeader(context.Background(), &proto.ReportLeaderOp{Stream: "a", Partition: 0, Replica: "r2", Leader: "r1", LeaderEpoch: lepoch})
+		vAssert(st == nil, "the first report is accepted")
+		l, _ := p.GetLeader()
+		vAssert(l == "r1", "one report of two in-sync followers does not elect")
+	}
+	reporter := "r3"
+	if expand {
+		reporter = "r2" // the only in-sync follower: its report is the quorum
+	}
+	victim := []string{"r2", "r3"}[vChoose(2)]
+	done := make(chan struct{}, 2)
+	var isrCode codes.Code = codes.OK
+	vSchedExplore(vParam("preemptions", 1))
+	go func() {
+		s.metadata.ReportLeader(context.Background(), &proto.ReportLeaderOp{Stream: "a", Partition: 0, Replica: reporter, Leader: "r1", LeaderEpoch: lepoch})
+		done <- struct{}{}
+	}()
+	go func() {
+		var st interface{ Code() codes.Code }
+		if expand {
+			if r := s.metadata.ExpandISR(context.Background(), &proto.ExpandISROp{Stream: "a", Partition: 0, ReplicaToAdd: "r3", Leader: "r1", LeaderEpoch: lepoch}); r != nil {
+				st = r
+			}
+		} else {
+			if r := s.metadata.ShrinkISR(context.Background(), &proto.ShrinkISROp{Stream: "a", Partition: 0, ReplicaToRemove: victim, Leader: "r1", LeaderEpoch: lepoch}); r != nil {
+				st = r
+			}
+		}
+		if st != nil {
+			isrCode = st.Code()
+		}
+		done <- struct{}{}
+	}()
+	<-done
+	<-done
+	vSchedExplore(0)
+	nleader, nlepoch := p.GetLeader()
+	nisr := p.GetISR()
+	vNote(fmt.Sprintf("expand=%v victim=%s reporter=%s isr-change-code=%v -> leader=%s lepoch=%d isr=%v raft-index=%d", expand, victim, reporter, isrCode, nleader, nlepoch, nisr, vRaftIndex))
+	vAssert(nlepoch >= lepoch, "the leader epoch never decreases")
+	vAssert(p.GetEpoch() >= epoch0, "the partition epoch never decreases")
+	vAssert(vInSlice(nisr, nleader), "the leader is always in the in-sync set")
+	for _, r := range nisr {
+		vAssert(vInSlice(reps, r), "the in-sync set is a subset of the replicas")
+	}
+	if nleader != "r1" {
+		vCover("election")
+		vAssert(nlepoch > lepoch, "a new leader gets a new, larger leader epoch")
+		if isrCode == codes.OK {
+			vCover("isr-change-and-election")
+		} else {
+			vCover("isr-change-refused")
+		}
+	} else {
+		// no election: only when the concurrent ISR change took effect first
+		// (the reporter left the in-sync set, the quorum grew with the set, or
+		// the candidate picked from the old set was refused)
+		vAssert(isrCode == codes.OK, "the decisive report elects a new leader unless a concurrent ISR change took effect first")
+		vCover("no-election")
+		// the followers keep reporting: the next round elects from the current set
+		if len(nisr) > 1 {
+			for _, r := range nisr {
+				if r != "r1" {
+					s.metadata.ReportLeader(context.Background(), &proto.ReportLeaderOp{Stream: "a", Partition: 0, Replica: r, Leader: "r1", LeaderEpoch: lepoch})
+				}
+			}
+			l2, e2 := p.GetLeader()
+			vAssert(l2 != "r1", "a further round of reports from every in-sync follower elects a new leader")
+			vAssert(e2 > lepoch, "a new leader gets a new, larger leader epoch")
+			vAssert(vInSlice(p.GetISR(), l2), "the leader is always in the in-sync set")
+			vAssert(vInSlice(nisr, l2), "a new leader is chosen from the in-sync set at election time")
+			vCover("elected-in-the-next-round")
 		}
 	}
 	vCover("done")
